@@ -191,6 +191,18 @@ CLAIMS.update({
         "no SAT call in a loop and ST one per component, and that the ID enumeration stops early. NOT decided: termination and the numeric bounds.",
         ref="4/C18",
     ),
+    "C19": dict(
+        technique="MIR-based static analysis: provenance trees across closures (which value is stored under which index, which table an accessor reads with which key), pairing of class membership with the `classified` marks",
+        text="NARROW CLAIM (second sentence of the statement only). Decides that the two mappings are total and inverse to each other at the level of "
+        "classes: the reduced argument k is made from class k (labels built from the class list in order, nothing filtered), the init->reduced table "
+        "stores k under every member of class k (index and value come from one step of one enumeration of the class list) and has one entry per "
+        "initial argument, `reduced_arg_to_init_args` reads class `reduced.id()` and maps its members through the initial framework, "
+        "`init_to_reduced_arg` reads the table at `init.id()` and looks the result up in the reduced framework, the constructor stores the class "
+        "list it reduced; and every argument enters exactly one class (an id put into a class is marked as classified in the same step; an "
+        "iteration over the arguments opens a class unless its argument is already classified). NOT decided: that merged arguments belong to "
+        "exactly the same complete extensions (first sentence: a semantic fact about the propagation over all graphs).",
+        ref="4/C19",
+    ),
 })
 
 
@@ -215,10 +227,7 @@ ADDED = {
 for _k, _v in ADDED.items():
     CLAIMS[_k]["text"] += _v
 
-NOT_APPLICABLE = {
-    "C19": "Merged arguments being indistinguishable under complete semantics is a semantic fact about a propagation algorithm over all graphs; "
-    "no structural necessary condition of value remains for a static rule (DESIGN.md section 4/C19).",
-}
+NOT_APPLICABLE = {}
 
 PENDING_REASON = "check under construction in this round: not yet claimed (see DESIGN.md section 10 build order)"
 
